@@ -1,22 +1,56 @@
 (* C04 — Frequency-shift covariance and conjugate symmetry of two-sided spectra.  Statements only.
 
-   tw is the DFT character (tw a = exp(-2 pi i a / n)); modulating sample j by tw(-(m*j)) is
-   multiplying it by exp(+2 pi i m j / n).
+   tw is the DFT character (tw a = exp(-2 pi i a / n)); modulating sample j by tw(-(m*j)) is multiplying it by
+   exp(+2 pi i m j / n) ([vmod (shift_phase m) 0 x]).  [rot m l] is numpy.roll(l, m) (entry k = l[(k-m) mod len]),
+   [mirror l] is l[(-k) mod len], [vconj] the conjugated list, [vrevconj x] = conj(x[::-1]).
+   Abstract *-field + twiddle character; every length N, every NFFT n >= 1, every shift m in Z, every bin.
 
-   PROVED (abstract *-field + twiddle character; every length N <= n, every shift m, every bin k in Z):
-     dft_shift          DFT of the modulated data at bin k = DFT of the data at bin k - m
-     dft_mirror         DFT of the conjugated data at bin k = conj of the DFT at bin -k
-     dft_bins_periodic  bins are n-periodic (so "k - m" and "-k" are taken mod n)
-     dft_time_reversal  DFT of the reversed data at bin k = tw((N-1)k) * DFT at bin -k  (unimodular factor: |.|^2 equal)
-     acorr_modulation   autocorrelation lags of the modulated data: lag k multiplied by tw(-(m*k)), every normalisation
-     acorr_time_reversal  the autocorrelation of conj(reversed x) is the autocorrelation of x (periodogram,
-                        correlogram and Yule-Walker invariance rest on it)
-     levinson_modulation  LEVINSON on modulated lags: AR / reflection coefficient of index j multiplied by
-                        tw(-(m*(j+1))), error power unchanged, same raise decision
-   NOT PROVED at this commit (search on the implementation only): class-level rotation / mirror for every estimator,
-   one-sided = 2 x half of two-sided, Burg / modified covariance / multitaper / minimum variance time reversal. *)
+   PROVED
+     DFT          dft_shift dft_mirror dft_bins_periodic dft_time_reversal (function level, bins in Z);
+                  fft_roll fft_mirror (the executable numpy.fft.fft model: fft(x e^{..}) = roll(fft x, m), fft(conj x) = conj(mirror))
+     correlation  acorr_modulation acorr_conj acorr_time_reversal
+     LEVINSON     levinson_modulation levinson_conj
+     periodogram  periodogram_shift (any window, cropping allowed, detrend off) periodogram_mirror (real window)
+                  periodogram_reversal (real symmetric window, N <= NFFT)
+     correlogram  correlogram_shift correlogram_mirror correlogram_reversal (auto-correlogram, both correlation back ends,
+                  every normalisation, every lag / NFFT incl. the overlapping layouts and the error branches)
+     arma2psd     arma2psd_rotation (AR and MA coefficient j times tw(-m(j+1)) => spectrum rolled by m; default and centerdc
+                  sides; same raise branches) arma2psd_mirror (conjugated coefficients => mirrored)
+     Yule-Walker  aryule_shift aryule_mirror aryule_time_reversal; class spectrum pyule_shift pyule_mirror pyule_reversal
+     Burg         burg_modulation (reflection / AR coefficient j times tw(-m(j+1)), rho unchanged, same ValueError and
+                  order-selection decisions) burg_conj burg_time_reversal; class spectrum pburg_shift pburg_mirror pburg_reversal
+     covariance   arcovar_modulation arcovar_conj modcovar_modulation modcovar_conj modcovar_time_reversal (corrmtx + the executable
+                  solver [ls_solve] = Gaussian elimination on the normal equations with its exact zero tests + the code's
+                  post-processing incl. the 'wierd behaviour' assertion; no side condition: a zero pivot is None on both sides);
+                  class spectra pcovar_shift pcovar_mirror pmodcovar_shift pmodcovar_mirror pmodcovar_reversal
+     MA           ma_modulation ma_conj ma_time_reversal (arma.ma = aryule twice); class spectrum pma_shift pma_mirror pma_reversal
+     min. variance  minvar_shift minvar_mirror minvar_time_reversal (every order / NFFT incl. aliased grids)
+     multitaper   multitaper_shift multitaper_mirror multitaper_reversal: MultiTapering.__call__ on complex data, methods
+                  unity / eigen / adapt (the adaptive iteration runs in lock step: pointwise update, rotation-invariant stop test)
+     class level  class_stored_rotation class_stored_mirror (PipelineLib.stored commutes with roll / mirror when the complex
+                  store is "as is"), onesided_static (slice-and-double store = 2 x first bins of the two-sided store);
+                  the rows of the GENERATED table are checked against their hypotheses on every run (tools/props/C04.py)
+     real data    acorr_real_path levinson_real_path aryule_real_path arburg_real_path: the model at a real field R and at F
+                  commute with any *-homomorphism R -> F ("real samples declared complex give the same parameters");
+                  aryule_real_parameters arburg_real_parameters: real data => real AR / reflection coefficients
+   Hypotheses that are not decoration: conjugation / real-path theorems divide, so they assume the quantities the code divides
+   by are nonzero (N, N-k, mean power for 'coeff', the error powers / Burg denominators of the executed stages) -- conj(a/0)
+   is not determined in an abstract field and the code produces inf/nan there.
+
+   NOT PROVED (search on the implementation only): arma_estimate (parma: its class spectrum follows from arma2psd_rotation /
+   _mirror once the estimator law is known; there is no model of arma_estimate), pmusic / pev, real-data correlogram
+   (two-sided to one-sided conversion), pdaniell; arma2psd with norm=True.  scipy.linalg.lstsq is represented by the
+   executable solver ls_solve (any solver of the normal equations agrees with it on full-rank data: C09). *)
+From Coq Require Import String.
 Require Import Spectrum.Theory.Ops Spectrum.Theory.Sum Spectrum.Theory.Vec Spectrum.Theory.Dft
-               Spectrum.Model.Levinson Spectrum.Model.Corr Spectrum.Proofs.ShiftTheory
+               Spectrum.Model.Levinson Spectrum.Model.Corr Spectrum.Model.Periodogram Spectrum.Model.Arma2psd
+               Spectrum.Model.Yule Spectrum.Model.Burg Spectrum.Model.Minvar Spectrum.Model.Mtm Spectrum.Model.PipelineLib
+               Spectrum.Model.Ls Spectrum.Model.MaEst
+               Spectrum.Proofs.ShiftTheory Spectrum.Proofs.YuleExt Spectrum.Proofs.MtmTheory
+               Spectrum.Proofs.ShiftDft_C04 Spectrum.Proofs.ShiftPeriodogram_C04 Spectrum.Proofs.ShiftCorrelogram_C04
+               Spectrum.Proofs.ShiftArma_C04 Spectrum.Proofs.ShiftBurg_C04 Spectrum.Proofs.ShiftMinvar_C04
+               Spectrum.Proofs.ShiftMtm_C04 Spectrum.Proofs.HomTransfer_C04 Spectrum.Proofs.ShiftPipeline_C04
+               Spectrum.Proofs.ShiftMa_C04 Spectrum.Proofs.ShiftLs_C04
                Spectrum.Instances.QcC Spectrum.Instances.QcCTw.
 From Coq Require Import QArith Qcanon.
 
@@ -59,12 +93,295 @@ Proof. exact (acorr_time_reversal_thm x ml nm). Qed.
 Theorem levinson_modulation (m : Z) (r : list F) p allow :
   levinson (vmod (shift_phase m) 0 r) p allow = option_map (modst (shift_phase m)) (levinson r p allow).
 Proof. exact (levinson_modulation_thm (shift_phase m) (shift_phase_add m) (shift_phase_0 m) (shift_phase_cj m) r p allow). Qed.
+
+(* ---------------- numpy.fft.fft (executable model) ---------------- *)
+Theorem fft_roll (m : Z) (v : list F) : dft tw n (vmod (shift_phase m) 0 v) = rot m (dft tw n v).
+Proof. exact (dft_list_shift n tw n_pos m v). Qed.
+
+Theorem fft_mirror (v : list F) : dft tw n (vconj v) = vconj (mirror (dft tw n v)).
+Proof. exact (dft_list_conj n tw n_pos v). Qed.
+
+(* ---------------- conjugation of the correlation / LEVINSON pair ---------------- *)
+Theorem acorr_conj (x : list F) ml nm : (forall k, (1 <= k)%nat -> ofnat k <> 0) -> (nm = Coeff -> mean_pow x <> 0) ->
+  acorr (vconj x) ml nm = option_map vconj (acorr x ml nm).
+Proof. exact (acorr_conj_thm x ml nm). Qed.
+
+Theorem levinson_conj (r : list F) p allow :
+  (forall q A P ks, (q < p)%nat -> levinson r q allow = Some (A, P, ks) -> P <> 0) ->
+  levinson (vconj r) p allow = option_map conjst (levinson r p allow).
+Proof. exact (levinson_conj_thm r p allow). Qed.
+
+(* ---------------- speriodogram, complex data ---------------- *)
+Theorem periodogram_shift twopi (x w : list F) NFFT dt sbf fs (m : Z) :
+  resolve NFFT (length x) = n -> py_eq_true dt = false ->
+  speriodogram tw twopi (vmod (shift_phase m) 0 x) w NFFT false dt sbf fs
+  = rot m (speriodogram tw twopi x w NFFT false dt sbf fs).
+Proof. exact (periodogram_shift_thm n tw n_pos twopi x w NFFT dt sbf fs m). Qed.
+
+Theorem periodogram_mirror twopi (x w : list F) NFFT dt sbf fs :
+  resolve NFFT (length x) = n -> (forall j, isreal (nthF w j)) -> (py_eq_true dt = true -> ofnat (length x) <> 0) ->
+  speriodogram tw twopi (vconj x) w NFFT false dt sbf fs = mirror (speriodogram tw twopi x w NFFT false dt sbf fs).
+Proof. exact (periodogram_mirror_thm n tw n_pos twopi x w NFFT dt sbf fs). Qed.
+
+Theorem periodogram_reversal twopi (x w : list F) NFFT dt sbf fs :
+  resolve NFFT (length x) = n -> (length x <= n)%nat -> py_eq_true dt = false ->
+  (forall j, isreal (nthF w j)) -> (forall j, (j < length x)%nat -> nthF w (length x - 1 - j) = nthF w j) ->
+  speriodogram tw twopi (vrevconj x) w NFFT false dt sbf fs = speriodogram tw twopi x w NFFT false dt sbf fs.
+Proof. exact (periodogram_reversal_thm n tw n_pos twopi x w NFFT dt sbf fs). Qed.
+
+(* ---------------- CORRELOGRAMPSD, auto-correlogram ---------------- *)
+Theorem correlogram_shift rp (x : list F) lag wfull NFFT nm be (m : Z) :
+  resolve NFFT (length x) = n ->
+  correlogram tw rp (vmod (shift_phase m) 0 x) None lag wfull NFFT nm be
+  = option_map (rot m) (correlogram tw rp x None lag wfull NFFT nm be).
+Proof. exact (correlogram_shift_thm n tw n_pos rp x lag wfull NFFT nm be m). Qed.
+
+Theorem correlogram_mirror rp (x : list F) lag wfull NFFT nm be :
+  resolve NFFT (length x) = n -> (forall t, isreal (nthF wfull t)) ->
+  (forall k, (1 <= k)%nat -> ofnat k <> 0) -> (nm = Coeff -> isreal rp /\ rp <> 0) ->
+  correlogram tw rp (vconj x) None lag wfull NFFT nm be
+  = option_map mirror (correlogram tw rp x None lag wfull NFFT nm be).
+Proof. exact (correlogram_mirror_thm n tw n_pos rp x lag wfull NFFT nm be). Qed.
+
+Theorem correlogram_reversal rp (x : list F) lag wfull NFFT nm be :
+  correlogram tw rp (vrevconj x) None lag wfull NFFT nm be = correlogram tw rp x None lag wfull NFFT nm be.
+Proof. exact (correlogram_reversal_thm tw rp x lag wfull NFFT nm be). Qed.
+
+(* the rms product handed to 'coeff' is itself invariant *)
+Theorem mean_power_invariant (m : Z) (x : list F) :
+  mean_pow (vmod (shift_phase m) 0 x) = mean_pow x /\ mean_pow (vconj x) = mean_pow x /\ mean_pow (vrevconj x) = mean_pow x.
+Proof.
+  exact (Logic.conj (mean_pow_mod (shift_phase m) (shift_phase_add m) (shift_phase_0 m) (shift_phase_cj m) x)
+              (Logic.conj (mean_pow_conj x) (mean_power_revconj x))).
+Qed.
+
+(* ---------------- arma2psd ---------------- *)
+Theorem arma2psd_rotation (m : Z) (A B : option (list F)) rho Ts sides :
+  arma2psd tw (option_map (vmod (shift_phase m) 1) A) (option_map (vmod (shift_phase m) 1) B) rho Ts n sides false
+  = option_map (rot m) (arma2psd tw A B rho Ts n sides false).
+Proof. exact (arma2psd_rotation_thm n tw n_pos m A B rho Ts sides). Qed.
+
+Theorem arma2psd_mirror (A B : option (list F)) rho Ts :
+  arma2psd tw (option_map vconj A) (option_map vconj B) rho Ts n SidesDefault false
+  = option_map mirror (arma2psd tw A B rho Ts n SidesDefault false).
+Proof. exact (arma2psd_mirror_thm n tw n_pos A B rho Ts). Qed.
+
+(* ---------------- Yule-Walker ---------------- *)
+Theorem aryule_shift (m : Z) (x : list F) order nm allow :
+  aryule (vmod (shift_phase m) 0 x) order nm allow = map_yw (modst (shift_phase m)) (aryule x order nm allow).
+Proof. exact (aryule_modulation_thm (shift_phase m) (shift_phase_add m) (shift_phase_0 m) (shift_phase_cj m) x order nm allow). Qed.
+
+Theorem aryule_mirror (x : list F) order nm allow : (forall k, (1 <= k)%nat -> ofnat k <> 0) ->
+  (forall r q A P ks, acorr x order nm = Some r -> (q < length r - 1)%nat -> levinson r q allow = Some (A, P, ks) -> P <> 0) ->
+  aryule (vconj x) order nm allow = map_yw conjst (aryule x order nm allow).
+Proof. exact (aryule_conj_thm x order nm allow). Qed.
+
+Theorem aryule_time_reversal (x : list F) order nm allow : aryule (vrevconj x) order nm allow = aryule x order nm allow.
+Proof. exact (aryule_time_reversal_thm x order nm allow). Qed.
+
+Theorem pyule_shift (x : list F) order nm (m : Z) :
+  pyule_S tw (vmod (shift_phase m) 0 x) order nm n = option_map (rot m) (pyule_S tw x order nm n).
+Proof. exact (pyule_S_shift n tw n_pos x order nm m). Qed.
+
+Theorem pyule_mirror (x : list F) order nm : (forall k, (1 <= k)%nat -> ofnat k <> 0) ->
+  (forall r q A P ks, acorr x order nm = Some r -> (q < length r - 1)%nat -> levinson r q true = Some (A, P, ks) -> P <> 0) ->
+  pyule_S tw (vconj x) order nm n = option_map mirror (pyule_S tw x order nm n).
+Proof. exact (pyule_S_mirror n tw n_pos x order nm). Qed.
+
+Theorem pyule_reversal (x : list F) order nm : pyule_S tw (vrevconj x) order nm n = pyule_S tw x order nm n.
+Proof. exact (pyule_S_reversal n tw x order nm). Qed.
+
+(* ---------------- Burg ---------------- *)
+Theorem burg_modulation (m : Z) (x : list F) order stop :
+  arburg (vmod (shift_phase m) 0 x) order stop = option_map (modst (shift_phase m)) (arburg x order stop).
+Proof. exact (arburg_modulation_thm (shift_phase m) (shift_phase_add m) (shift_phase_0 m) (shift_phase_cj m) x order stop). Qed.
+
+Theorem burg_conj (x : list F) order stop : ofnat (length x) <> 0 ->
+  (forall q st, (q < order)%nat -> burg_iter stop x q = BCont st -> burg_den (length x) st q <> 0) ->
+  arburg (vconj x) order stop = option_map conjst (arburg x order stop).
+Proof. exact (arburg_conj_thm x order stop). Qed.
+
+Theorem burg_time_reversal (x : list F) order stop : arburg (vrevconj x) order stop = arburg x order stop.
+Proof. exact (arburg_time_reversal_thm x order stop). Qed.
+
+Theorem pburg_shift (x : list F) order stop (m : Z) :
+  pburg_S tw (vmod (shift_phase m) 0 x) order stop n = option_map (rot m) (pburg_S tw x order stop n).
+Proof. exact (pburg_S_shift n tw n_pos x order stop m). Qed.
+
+Theorem pburg_mirror (x : list F) order stop : ofnat (length x) <> 0 ->
+  (forall q st, (q < order)%nat -> burg_iter stop x q = BCont st -> burg_den (length x) st q <> 0) ->
+  pburg_S tw (vconj x) order stop n = option_map mirror (pburg_S tw x order stop n).
+Proof. exact (pburg_S_mirror n tw n_pos x order stop). Qed.
+
+Theorem pburg_reversal (x : list F) order stop : pburg_S tw (vrevconj x) order stop n = pburg_S tw x order stop n.
+Proof. exact (pburg_S_reversal n tw x order stop). Qed.
+
+(* ---------------- covariance / modified covariance (executable least-squares solver) ---------------- *)
+Theorem arcovar_modulation (m : Z) tol (x : list F) p :
+  arcovar tol (vmod (shift_phase m) 0 x) p = map_ae (modA (shift_phase m)) (arcovar tol x p).
+Proof. exact (arcovar_modulation_thm (shift_phase m) (shift_phase_add m) (shift_phase_0 m) (shift_phase_cj m) tol x p). Qed.
+
+Theorem arcovar_conj tol (x : list F) p : arcovar tol (vconj x) p = map_ae vconj (arcovar tol x p).
+Proof. exact (arcovar_conj_thm tol x p). Qed.
+
+Theorem modcovar_modulation (m : Z) tol (x : list F) p :
+  modcovar tol (vmod (shift_phase m) 0 x) p = map_ae (modA (shift_phase m)) (modcovar tol x p).
+Proof. exact (modcovar_modulation_thm (shift_phase m) (shift_phase_add m) (shift_phase_0 m) (shift_phase_cj m) tol x p). Qed.
+
+Theorem modcovar_conj tol (x : list F) p : modcovar tol (vconj x) p = map_ae vconj (modcovar tol x p).
+Proof. exact (modcovar_conj_thm tol x p). Qed.
+
+Theorem modcovar_time_reversal tol (x : list F) p : modcovar tol (vrevconj x) p = modcovar tol x p.
+Proof. exact (modcovar_time_reversal_thm tol x p). Qed.
+
+Theorem pcovar_shift tol (x : list F) p (m : Z) :
+  pcovar_S tw tol (vmod (shift_phase m) 0 x) p n = option_map (rot m) (pcovar_S tw tol x p n).
+Proof. exact (pcovar_S_shift n tw n_pos tol x p m). Qed.
+
+Theorem pcovar_mirror tol (x : list F) p : pcovar_S tw tol (vconj x) p n = option_map mirror (pcovar_S tw tol x p n).
+Proof. exact (pcovar_S_mirror n tw n_pos tol x p). Qed.
+
+Theorem pmodcovar_shift tol (x : list F) p (m : Z) :
+  pmodcovar_S tw tol (vmod (shift_phase m) 0 x) p n = option_map (rot m) (pmodcovar_S tw tol x p n).
+Proof. exact (pmodcovar_S_shift n tw n_pos tol x p m). Qed.
+
+Theorem pmodcovar_mirror tol (x : list F) p : pmodcovar_S tw tol (vconj x) p n = option_map mirror (pmodcovar_S tw tol x p n).
+Proof. exact (pmodcovar_S_mirror n tw n_pos tol x p). Qed.
+
+Theorem pmodcovar_reversal tol (x : list F) p : pmodcovar_S tw tol (vrevconj x) p n = pmodcovar_S tw tol x p n.
+Proof. exact (pmodcovar_S_reversal n tw tol x p). Qed.
+
+(* ---------------- arma.ma (aryule twice) and pma ---------------- *)
+Theorem ma_modulation (m : Z) (x : list F) Q M :
+  ma_est (vmod (shift_phase m) 0 x) Q M = map_ma (modA (shift_phase m)) (ma_est x Q M).
+Proof. exact (ma_modulation_thm (shift_phase m) (shift_phase_add m) (shift_phase_0 m) (shift_phase_cj m) x Q M). Qed.
+
+Theorem ma_conj (x : list F) Q M : (forall k, (1 <= k)%nat -> ofnat k <> 0) -> yw_regular x M ->
+  (forall a rho k, aryule x M Biased true = inr (a, rho, k) -> yw_regular (1 :: a) Q) ->
+  ma_est (vconj x) Q M = map_ma vconj (ma_est x Q M).
+Proof. exact (ma_conj_thm x Q M). Qed.
+
+Theorem ma_time_reversal (x : list F) Q M : ma_est (vrevconj x) Q M = ma_est x Q M.
+Proof. exact (ma_time_reversal_thm x Q M). Qed.
+
+Theorem pma_shift (x : list F) Q M (m : Z) :
+  pma_S tw (vmod (shift_phase m) 0 x) Q M n = option_map (rot m) (pma_S tw x Q M n).
+Proof. exact (pma_S_shift n tw n_pos x Q M m). Qed.
+
+Theorem pma_mirror (x : list F) Q M : (forall k, (1 <= k)%nat -> ofnat k <> 0) -> yw_regular x M ->
+  (forall a rho k, aryule x M Biased true = inr (a, rho, k) -> yw_regular (1 :: a) Q) ->
+  pma_S tw (vconj x) Q M n = option_map mirror (pma_S tw x Q M n).
+Proof. exact (pma_S_mirror n tw n_pos x Q M). Qed.
+
+Theorem pma_reversal (x : list F) Q M : pma_S tw (vrevconj x) Q M n = pma_S tw x Q M n.
+Proof. exact (pma_S_reversal n tw x Q M). Qed.
+
+(* ---------------- minimum variance ---------------- *)
+Theorem minvar_shift (x : list F) order fs (m : Z) :
+  minvar tw (vmod (shift_phase m) 0 x) order fs n = option_map (mod3 tw m) (minvar tw x order fs n).
+Proof. exact (minvar_shift_thm n tw n_pos x order fs m). Qed.
+
+Theorem minvar_mirror (x : list F) order fs : ofnat (length x) <> 0 ->
+  (forall q st, (q < order - 1)%nat -> burg_iter no_stop x q = BCont st -> burg_den (length x) st q <> 0) ->
+  minvar tw (vconj x) order fs n = option_map conj3 (minvar tw x order fs n).
+Proof. exact (minvar_mirror_thm n tw n_pos x order fs). Qed.
+
+Theorem minvar_time_reversal (x : list F) order fs : minvar tw (vrevconj x) order fs n = minvar tw x order fs n.
+Proof. exact (minvar_time_reversal_thm tw x order fs n). Qed.
+
+(* ---------------- multitaper (MultiTapering.__call__, complex data; dpss is an oracle) ---------------- *)
+Theorem multitaper_shift {NWT : Type} (dpss : nat -> NWT -> option nat -> list (list F) * list F) fuel (x : list F) NW k nfft e v mth sbf scale (m : Z) :
+  (match nfft with Some n' => n' | None => length x end) = n ->
+  mt_call dpss fuel tw false (vmod (shift_phase m) 0 x) NW k nfft e v mth sbf scale
+  = option_map (rot m) (mt_call dpss fuel tw false x NW k nfft e v mth sbf scale).
+Proof. exact (mt_call_shift_thm n tw n_pos dpss fuel x NW k nfft e v mth sbf scale m). Qed.
+
+Theorem multitaper_mirror {NWT : Type} (dpss : nat -> NWT -> option nat -> list (list F) * list F) fuel (x : list F) NW k nfft e v mth sbf scale :
+  (match nfft with Some n' => n' | None => length x end) = n ->
+  (forall tv, pmtm_inputs dpss (length x) NW k e v = Some tv -> forall t, In t (fst tv) -> forall j, isreal (nthF t j)) ->
+  mt_call dpss fuel tw false (vconj x) NW k nfft e v mth sbf scale
+  = option_map mirror (mt_call dpss fuel tw false x NW k nfft e v mth sbf scale).
+Proof. exact (mt_call_mirror_thm n tw n_pos dpss fuel x NW k nfft e v mth sbf scale). Qed.
+
+Theorem multitaper_reversal {NWT : Type} (dpss : nat -> NWT -> option nat -> list (list F) * list F) fuel (x : list F) NW k nfft e v mth sbf scale :
+  (match nfft with Some n' => n' | None => length x end) = n -> (length x <= n)%nat ->
+  (forall tv, pmtm_inputs dpss (length x) NW k e v = Some tv -> forall t, In t (fst tv) -> sym_taper (length x) t) ->
+  mt_call dpss fuel tw false (vrevconj x) NW k nfft e v mth sbf scale
+  = mt_call dpss fuel tw false x NW k nfft e v mth sbf scale.
+Proof. exact (mt_call_reversal_thm n tw n_pos dpss fuel x NW k nfft e v mth sbf scale). Qed.
+
+(* ---------------- class level: PipelineLib.stored ---------------- *)
+Theorem class_stored_rotation twopi pm p sbf (s : sstate) (Sp : list F) (m : Z) : p_cplx p = SAsIs ->
+  stored twopi pm p false sbf s (rot m Sp) = rot m (stored twopi pm p false sbf s Sp).
+Proof. exact (stored_cplx_rot twopi pm p sbf s Sp m). Qed.
+
+Theorem class_stored_mirror twopi pm p sbf (s : sstate) (Sp : list F) : p_cplx p = SAsIs ->
+  stored twopi pm p false sbf s (mirror Sp) = mirror (stored twopi pm p false sbf s Sp).
+Proof. exact (stored_cplx_mirror twopi pm p sbf s Sp). Qed.
+
+Theorem onesided_static twopi pm p sbf (s : sstate) (Sp : list F) :
+  p_real p = SHalf HalfPlus1 HalfUp 2 false -> p_cplx p = SAsIs -> p_scale_real p = p_scale_cplx p ->
+  st_range_N s = st_NFFT s -> length Sp = st_NFFT s ->
+  stored twopi pm p true sbf s Sp
+  = vscale (ofnat 2) (firstn (onesided_len (st_NFFT s)) (stored twopi pm p false sbf s Sp)).
+Proof. exact (stored_half twopi pm p sbf s Sp). Qed.
+
+(* ---------------- real data: real parameters ---------------- *)
+Theorem aryule_real_parameters (x : list F) order nm allow a P k : allreal x -> (forall j, (1 <= j)%nat -> ofnat j <> 0) ->
+  (forall r q A P ks, acorr x order nm = Some r -> (q < length r - 1)%nat -> levinson r q allow = Some (A, P, ks) -> P <> 0) ->
+  aryule x order nm allow = inr (a, P, k) -> allreal a /\ allreal k.
+Proof. exact (aryule_real_thm x order nm allow a P k). Qed.
+
+Theorem arburg_real_parameters (x : list F) order stop a rho k : allreal x -> ofnat (length x) <> 0 ->
+  (forall q st, (q < order)%nat -> burg_iter stop x q = BCont st -> burg_den (length x) st q <> 0) ->
+  arburg x order stop = Some (a, rho, k) -> allreal a /\ allreal k.
+Proof. exact (arburg_real_thm x order stop a rho k). Qed.
 End C04.
 
-(* non-vacuity: an exact character exists (n = 4) and a modulated run on concrete complex lags *)
+(* ---------------- real data: the real code path and the complex code path return the same parameters ---------------- *)
+Section C04Real.
+Context {R : Type} {OR : Ops R} {LR : Laws OR}.
+Context {F : Type} {OF : Ops F} {L : Laws OF}.
+Variable phi : R -> F.
+Hypothesis H : StarHom phi.
+Hypothesis Hle : forall a : R, le0 (phi a) = le0 a.
+Local Open Scope F_scope.
+
+Theorem acorr_real_path (x : list R) ml nm : (forall k, (1 <= k)%nat -> ofnat k <> (0 : R)) -> (nm = Coeff -> mean_pow x <> 0) ->
+  acorr (map phi x) ml nm = option_map (map phi) (acorr x ml nm).
+Proof. exact (acorr_hom_thm phi H x ml nm). Qed.
+
+Theorem levinson_real_path (r : list R) p allow :
+  (forall q A P ks, (q < p)%nat -> levinson r q allow = Some (A, P, ks) -> P <> 0) ->
+  levinson (map phi r) p allow = option_map (homst phi) (levinson r p allow).
+Proof. exact (levinson_hom_thm phi H Hle r p allow). Qed.
+
+Theorem aryule_real_path (x : list R) order nm allow : (forall k, (1 <= k)%nat -> ofnat k <> (0 : R)) ->
+  (forall r q A P ks, acorr x order nm = Some r -> (q < length r - 1)%nat -> levinson r q allow = Some (A, P, ks) -> P <> 0) ->
+  aryule (map phi x) order nm allow = hom_yw phi (aryule x order nm allow).
+Proof. exact (aryule_hom_thm phi H Hle x order nm allow). Qed.
+
+Theorem arburg_real_path (stopR : nat -> R -> R -> bool) (stopF : nat -> F -> F -> bool) (x : list R) order :
+  (forall k a b, stopF k (phi a) (phi b) = stopR k a b) -> ofnat (length x) <> (0 : R) ->
+  (forall q st, (q < order)%nat -> burg_iter stopR x q = BCont st -> burg_den (length x) st q <> 0) ->
+  arburg (map phi x) order stopF = option_map (homres phi) (arburg x order stopR).
+Proof. exact (fun Hs => arburg_hom_thm phi H Hle stopR stopF Hs x order). Qed.
+End C04Real.
+
+(* non-vacuity: an exact character exists (n = 4), modulated runs on concrete complex data return a model *)
 Example twiddle_exists : @Twiddle _ qcc_ops 4 tw4. Proof. exact tw4_twiddle. Qed.
 Example levinson_modulation_example :
   exists st, @levinson _ qcc_ops (@vmod _ qcc_ops (shift_phase tw4 1) 0 [cz (2,0) (0,0); cz (1,0) (1,-1); cz (1,-2) (-1,-1)]%Z) 2 false = Some st.
+Proof. vm_compute. eexists. reflexivity. Qed.
+Example burg_modulation_example :
+  exists st, @arburg _ qcc_ops (@vmod _ qcc_ops (shift_phase tw4 1) 0 [cz (2,0) (0,0); cz (1,0) (1,-1); cz (1,-2) (-1,-1); cz (0,0) (3,0); cz (-1,0) (1,0)]%Z) 2 no_stop = Some st.
+Proof. vm_compute. eexists. reflexivity. Qed.
+Example pyule_shift_example :
+  exists psd, @pyule_S _ qcc_ops tw4 (@vmod _ qcc_ops (shift_phase tw4 1) 0 [cz (2,0) (0,0); cz (1,0) (1,-1); cz (1,-2) (-1,-1); cz (0,0) (3,0); cz (-1,0) (1,0)]%Z) 2 Biased 4 = Some psd
+              /\ length psd = 4%nat.
+Proof. vm_compute. eexists. split; reflexivity. Qed.
+Example minvar_shift_example :
+  exists r, @minvar _ qcc_ops tw4 (@vmod _ qcc_ops (shift_phase tw4 1) 0 [cz (2,0) (0,0); cz (1,0) (1,-1); cz (1,-2) (-1,-1); cz (0,0) (3,0); cz (-1,0) (1,0)]%Z) 3 (cz (1,0) (0,0))%Z 4 = Some r.
 Proof. vm_compute. eexists. reflexivity. Qed.
 
 Print Assumptions dft_shift.
@@ -74,3 +391,59 @@ Print Assumptions dft_time_reversal.
 Print Assumptions acorr_modulation.
 Print Assumptions acorr_time_reversal.
 Print Assumptions levinson_modulation.
+Print Assumptions fft_roll.
+Print Assumptions fft_mirror.
+Print Assumptions acorr_conj.
+Print Assumptions levinson_conj.
+Print Assumptions periodogram_shift.
+Print Assumptions periodogram_mirror.
+Print Assumptions periodogram_reversal.
+Print Assumptions correlogram_shift.
+Print Assumptions correlogram_mirror.
+Print Assumptions correlogram_reversal.
+Print Assumptions mean_power_invariant.
+Print Assumptions arma2psd_rotation.
+Print Assumptions arma2psd_mirror.
+Print Assumptions aryule_shift.
+Print Assumptions aryule_mirror.
+Print Assumptions aryule_time_reversal.
+Print Assumptions pyule_shift.
+Print Assumptions pyule_mirror.
+Print Assumptions pyule_reversal.
+Print Assumptions burg_modulation.
+Print Assumptions burg_conj.
+Print Assumptions burg_time_reversal.
+Print Assumptions pburg_shift.
+Print Assumptions pburg_mirror.
+Print Assumptions pburg_reversal.
+Print Assumptions arcovar_modulation.
+Print Assumptions arcovar_conj.
+Print Assumptions modcovar_modulation.
+Print Assumptions modcovar_conj.
+Print Assumptions modcovar_time_reversal.
+Print Assumptions pcovar_shift.
+Print Assumptions pcovar_mirror.
+Print Assumptions pmodcovar_shift.
+Print Assumptions pmodcovar_mirror.
+Print Assumptions pmodcovar_reversal.
+Print Assumptions ma_modulation.
+Print Assumptions ma_conj.
+Print Assumptions ma_time_reversal.
+Print Assumptions pma_shift.
+Print Assumptions pma_mirror.
+Print Assumptions pma_reversal.
+Print Assumptions minvar_shift.
+Print Assumptions minvar_mirror.
+Print Assumptions minvar_time_reversal.
+Print Assumptions multitaper_shift.
+Print Assumptions multitaper_mirror.
+Print Assumptions multitaper_reversal.
+Print Assumptions class_stored_rotation.
+Print Assumptions class_stored_mirror.
+Print Assumptions onesided_static.
+Print Assumptions aryule_real_parameters.
+Print Assumptions arburg_real_parameters.
+Print Assumptions acorr_real_path.
+Print Assumptions levinson_real_path.
+Print Assumptions aryule_real_path.
+Print Assumptions arburg_real_path.
